@@ -91,6 +91,37 @@ def documented_forms():
     yield ("doc", "null-field-override"), [("let", "t", T(("a", ("null",)))), ("let", "r", ("copy", SYM("t"), [("a", I(1))]))]
 
 
+def function_grid():
+    """let f = func (p) => BODY; let r = f(ARG); (and f called twice with arguments of different
+    types): every body form x every argument; the evaluation decides which are valid programs.
+    Added after an independent agent reported valid programs of this kind as rejected."""
+    P = SYM("p")
+    one = I(1)
+    bodies = [
+        ("p", P), ("p+1", B("+", P, one)), ("1+p", B("+", one, P)), ("p+p", B("+", P, P)), ("p+str", B("+", P, S("s"))), ("p+list", B("+", P, L(one))),
+        ("p*2", B("*", P, I(2))), ("p.a", B(".", P, SYM("a"))), ("p.a+p.b", B("+", B(".", P, SYM("a")), B(".", P, SYM("b")))), ("p.a.b", B(".", B(".", P, SYM("a")), SYM("b"))),
+        ("p.0", B(".", P, I(0))), ("p.0+p.1", B("+", B(".", P, I(0)), B(".", P, I(1)))), ("p.quoted", B(".", P, S("a"))),
+        ("[p,1]", L(P, one)), ("{x=p}", T(("x", P))), ("{x=p}.x", B(".", T(("x", P)), SYM("x"))), ("p{y=1}", ("copy", P, [("y", one)])), ("p{a=2}", ("copy", P, [("a", I(2))])),
+        ("select-p", ("select", P, I(0), [("a", one), ("s", I(2))])), ("select-default-p", ("select", S("z"), P, [("a", one)])),
+        ("select-p==1", ("select", B("==", P, one), I(0), [("true", one)])), ("format-p", ("format", "<@>", [P])), ("formatx-p", ("formatx", ["<", SYM("item"), ">"], P)),
+        ("p(1)", ("call", P, [one])), ("map-p", ("map", P, L(one, I(2)))), ("map-closure", ("map", ("func", ["x"], B("+", SYM("x"), P)), L(one))),
+        ("filter-closure", ("filter", ("func", ["x"], B("==", SYM("x"), P)), L(one, I(2)))), ("reduce-closure", ("reduce", ("func", ["a", "x"], B("+", B("+", SYM("a"), SYM("x")), P)), I(0), L(one))),
+        ("map-over-p", ("map", ("func", ["x"], SYM("x")), P)), ("reduce-over-p", ("reduce", ("func", ["a", "x"], B("+", SYM("a"), L(SYM("x")))), L(), P)),
+        ("p-in-list", B("in", P, L(one, I(2)))), ("str-in-p", B("in", S("a"), P)), ("p-is-int", B("is", P, S("int"))), ("not-p", ("not", P)), ("p&&true", B("&&", P, TRUE)),
+        ("p==1", B("==", P, one)), ("p==NULL", B("==", P, ("null",))), ("p<2", B("<", P, I(2))), ("int(p)", ("cast", "int", P)), ("str(p)", ("cast", "str", P)),
+        ("p:3", ("range", P, None, I(3))), ("0:p", ("range", I(0), None, P)), ("p.a(1)", ("call", B(".", P, SYM("a")), [one])), ("p.a{z=1}", ("copy", B(".", P, SYM("a")), [("z", one)])),
+    ]
+    args = [("int", one), ("float", ("float", 1.5)), ("str", S("s")), ("str-a", S("a")), ("bool", TRUE), ("null", ("null",)), ("list", L(one, I(2))), ("strlist", L(S("a"))),
+            ("tuple-a", T(("a", one))), ("tuple-ab", T(("a", one), ("b", I(2)))), ("tuple-nested", T(("a", T(("b", one))))), ("func", ("func", ["x"], B("+", SYM("x"), one))),
+            ("tuple-func", T(("a", ("func", ["x"], SYM("x")))))]
+    for bn, body in bodies:
+        for an, arg in args:
+            yield ("doc", "fgrid:%s(%s)" % (bn, an)), [("let", "f", ("func", ["p"], body)), ("let", "r", ("call", SYM("f"), [arg]))]
+    for bn, body in bodies:
+        for (an1, a1), (an2, a2) in itertools.permutations(args, 2):
+            yield ("doc", "fgrid2:%s(%s;%s)" % (bn, an1, an2)), [("let", "f", ("func", ["p"], body)), ("let", "r1", ("call", SYM("f"), [a1])), ("let", "r2", ("call", SYM("f"), [a2]))]
+
+
 RAW_FORMS = [
     ("include-str-concat", 'let r = "#!" + include str "./c07data.txt";'),
     ("include-str-cast", 'let r = int(include str "./c07data.txt") + 1;'),
@@ -285,6 +316,8 @@ def run(ctx):
 
     def descs():
         for d, st in documented_forms():
+            yield ("doc", d, st)
+        for d, st in function_grid():
             yield ("doc", d, st)
         for op in c01.OPS:
             for a in range(c01.NLEAVES):
